@@ -176,6 +176,32 @@ def run(tier: str) -> int:
         rep.sample({"child_type": types[ex_pair["c"] - 1], "parent_type": types[ex_pair["p"] - 1], "semantic_subtype": True})
         if nacc < 50 or nref < 50:
             rep.machinery(f"vacuous: accepted={nacc} refused={nref}")
+        # a field made mandatory by a decorator in between must not be re-widened without declaration
+        from metador_core.schema.decorators import make_mandatory
+        nmm = 0
+        for pk, pt in PRIM.items():
+            _n[0] += 1
+            g = type(MetadataSchema)(f"G{_n[0]}", (MetadataSchema,), {"__annotations__": {"f": Optional[pt]}})
+            mid = make_mandatory("f")(type(MetadataSchema)(f"Mid{_n[0]}", (g,), {"__annotations__": {}}))
+            for th, is_sub in ((Optional[pt], False), (pt, True)):
+                nmm += 1
+                ch = type(MetadataSchema)(f"Ch{_n[0]}_{nmm}", (mid,), {"__annotations__": {"f": th}})
+                try:
+                    check_types(ch)
+                    acc_ = True
+                except TypeError:
+                    acc_ = False
+                if acc_ and not is_sub:
+                    try:
+                        obj = ch()
+                        mid.parse_raw(bytes(obj))
+                        bad = False
+                    except Exception:
+                        bad = True
+                    if bad:
+                        rep.violation(f"a child re-widening field f to Optional[{pk}] below a @make_mandatory parent was accepted "
+                                      "without declaration; its instance without f is rejected by the parent", {"prim": pk})
+        rep.parts["make_mandatory_chains"] = {"cases": nmm}
         # extra policy must not be loosened by a child
         from pydantic import Extra
 
